@@ -1406,7 +1406,7 @@ def _inlinable(P: Program, f: Func, c: ast.Call, allow_yield: bool = False) -> O
         return None
     body = target.node.body
     rets = [x for x in own_nodes(target.node) if isinstance(x, ast.Return)]
-    if any(r is not body[-1] for r in rets) and not _returns_eliminable(body):
+    if any(r is not body[-1] for r in rets) and not _returns_eliminable(body) and not _returns_eliminable(_push_tails([norm.clone(s_) for s_ in body])):
         return None
     # a parameter that the helper binds again (assignment, loop variable, ...) cannot be replaced by the caller's argument expression:
     # inside the helper the name then means something else (and a shadowing slip there must stay visible)
@@ -1442,6 +1442,29 @@ def _always_returns(stmts: List[ast.stmt]) -> bool:
     if isinstance(last, ast.If):
         return _always_returns(last.body) and _always_returns(last.orelse)
     return False
+
+
+def _push_tails(stmts: List[ast.stmt], budget: int = 8) -> List[ast.stmt]:
+    """`if c: A; (return e on some paths)` followed by TAIL  ->  the TAIL copied to the end of every branch that can fall out of the case split,
+    so that each branch returns on every path or on none (what `_returns_eliminable` asks for).  Pure duplication of straight-line code along the
+    paths that reach it; done on a copy of the helper's body, bounded."""
+    out = list(stmts)
+    i = len(out) - 1
+    while i >= 0:
+        st = out[i]
+        if isinstance(st, ast.If) and _contains_return([st]):
+            st.body = _push_tails(st.body, budget)
+            st.orelse = _push_tails(st.orelse, budget)
+            tail = out[i + 1:]
+            partial = any(_contains_return(br) and not _always_returns(br) for br in (st.body, st.orelse))
+            if partial and tail and len(tail) <= budget and not any(isinstance(x, (ast.FunctionDef, ast.ClassDef)) for t_ in tail for x in ast.walk(t_)):
+                for name in ("body", "orelse"):
+                    br = getattr(st, name)
+                    if not _always_returns(br):
+                        setattr(st, name, _push_tails(br + [norm.clone(t_) for t_ in tail], budget))
+                out = out[:i + 1]
+        i -= 1
+    return out
 
 
 def _returns_eliminable(stmts: List[ast.stmt]) -> bool:
@@ -1588,6 +1611,8 @@ def _instantiate(target: Func, c: ast.Call, tag: str) -> Tuple[List[ast.stmt], O
     nrets = [x for s_ in body for x in ast.walk(s_) if isinstance(x, ast.Return)]
     if nrets and not (len(nrets) == 1 and nrets[0] is body[-1]):
         # guard clauses / case splits: make the body fall off its end, the result (if any) in a fresh local
+        if not _returns_eliminable(body):
+            body = _push_tails(body)
         has_value = any(r.value is not None for r in nrets)
         multi_ret = "ret" if has_value else None
         body = _eliminate_returns(body, multi_ret)
